@@ -48,7 +48,7 @@ def canonical_site(b, i):
     # aliases of the parsed number
     alias = set()
     for l, ty in enumerate(b.locals):
-        if ty in ("i64", "&i64"):
+        if re.match(r"^&?[iu](8|16|32|64|128|size)$", ty):
             P = prov.origins(b, l, stop_calls=stop)
             if any(r[0] == "call" and PARSE_ANY.search(r[1]) and r[2] == i for r in P.roots):
                 alias.add(l)
@@ -216,3 +216,25 @@ def rule_int_canon(ctx, R, readers=READERS, report_site=lambda fn: True):
             R.finding(fn, "stored-integer-reader:not-canonical",
                       "%s does not return the result of the canonical parser (std parse over the whole i64 range + round trip): the accepted texts differ from what Redis accepts or from what Value::integer can write" % fn.split("::")[-1], b.loc())
     R.floor("stored_integer_readers", n)
+
+
+def rule_rdb_text_numbers(ctx, R):
+    """the dump stores every string byte for byte.  Where the snapshot code parses dataset text as
+    a number (to store it in a shorter integer form), the number may replace the text only under a
+    round trip `n.to_string() == text`: "+5", "007", "-0" parse as integers but are different
+    strings -- keys and members that differ only in such spelling would collapse after a restart"""
+    n = 0
+    for fn, b in sorted(ctx.prog.bodies.items()):
+        if not fn.startswith("storage::rdb::") or "::tests::" in fn or fn.startswith("storage::rdb::RdbReader"):
+            continue
+        for i, t in b.calls():
+            if not PARSE.match(t["f"] or "") or not re.search(r"Result<[iu](8|16|32|64|128|size), std::num::ParseIntError>", b.locals[t["d"]["l"]]):
+                continue
+            n += 1
+            ok, why, _ = canonical_site(b, i)
+            R.inst(fn, "text-as-number", {"function": fn, "at": b.loc(i), "round_trip_guard": ok, "why": why})
+            if not ok:
+                R.finding(fn, "text-as-number:not-canonical",
+                          "%s parses a string of the dataset as an integer (line %d) and uses the number although %s: non-canonical spellings (\"+5\", \"007\", \"-0\") are written as the number and come back as different strings" % (fn.split("::")[-1], b.bb_line(i), why), b.loc(i))
+    R.note("integer parses of dataset text in the snapshot writer: %d" % n)
+    R.trivial()
